@@ -614,9 +614,9 @@ pub fn run(tier: Tier) -> i32 {
     let mut ctx = Ctx::new("C04", tier);
     ctx.assume("driver level: the set is fed with real quinn connections through hook H6 exactly as the connection manager feeds it");
     ctx.assume("thread stress samples real interleavings (not a pure function of the seed); a lagged subscriber ends that subscriber's checks (counted)");
-    ctx.run_part(DriverHistories, tier.pick(5_000, 100_000));
-    ctx.run_part(NetworkHistories, tier.pick(2_000, 40_000));
-    ctx.run_part_threads(ThreadStress, tier.pick(24, 600), 4);
+    ctx.run_part(DriverHistories, tier.pick(5_000, 800_000));
+    ctx.run_part(NetworkHistories, tier.pick(2_000, 300_000));
+    ctx.run_part_threads(ThreadStress, tier.pick(24, 2_000), 4);
     ctx.finish()
 }
 
